@@ -14,9 +14,13 @@ type modKey struct {
 	kind  string     // "F" field of struct, "O" whole object of type t, "E" slice/array elements of elem type t, "C" cell of type t, "M" map of type t
 	t     types.Type // struct type (F,O), element type (E), cell type (C), map type (M)
 	field int
+	name  string // ghost field name (kind "G")
 }
 
 func (k modKey) String() string {
+	if k.kind == "G" {
+		return "G:" + k.name
+	}
 	return fmt.Sprintf("%s:%s:%d", k.kind, types.TypeString(unalias(k.t), nil), k.field)
 }
 
@@ -168,6 +172,18 @@ func (e *Engine) modsetOfCallee(c *ssa.CallCommon, visiting map[*ssa.Function]bo
 	out := newModset()
 	// a contract with an explicit frame wins
 	if c.IsInvoke() {
+		k := "(" + types.TypeString(unalias(c.Value.Type()), nil) + ")." + c.Method.Name()
+		if ct := e.Contracts[k]; ct != nil && (ct.HasMod || ct.Trusted || ct.Pure) {
+			e.contractFrame(ct, c.Signature(), nil, out)
+			return out
+		}
+		if recv := c.Method.Type().(*types.Signature).Recv(); recv != nil {
+			k2 := "(" + types.TypeString(unalias(recv.Type()), nil) + ")." + c.Method.Name()
+			if ct := e.Contracts[k2]; ct != nil && (ct.HasMod || ct.Trusted || ct.Pure) {
+				e.contractFrame(ct, c.Signature(), nil, out)
+				return out
+			}
+		}
 		out.argReach = true
 		for _, fn := range e.implementors(c) {
 			out.union(e.modsetOfFunc(fn, visiting))
@@ -259,7 +275,7 @@ func (e *Engine) modsetOfFunc(fn *ssa.Function, visiting map[*ssa.Function]bool)
 	// explicit frame from a contract
 	if ct := e.Contracts[FuncKey(fn)]; ct != nil && (ct.HasMod || ct.Trusted || ct.Pure) {
 		ms := newModset()
-		ms.argReach = len(ct.Modifies) > 0 // conservative: the frame is resolved at the call site
+		e.contractFrame(ct, fn.Signature, fn, ms)
 		if !ct.Trusted && !ct.Pure && len(ct.Modifies) > 0 && fn.Blocks != nil && e.inModule(fn) {
 			// fall through to inference for use in *callers without contract application* (e.g. loop havoc)
 		} else {
@@ -315,7 +331,21 @@ func (e *Engine) loopWrites(li *loopInfo) *modset {
 	sort.Slice(blocks, func(i, j int) bool { return blocks[i].Index < blocks[j].Index })
 	for _, b := range blocks {
 		for _, in := range b.Instrs {
-			e.instrWrites(in, ms)
+			// inside the function itself writes to its own local memory count (no freshRoot exemption)
+			switch x := in.(type) {
+			case *ssa.Store:
+				for _, k := range writeKeys(x.Addr, x.Val.Type()) {
+					ms.add(k)
+				}
+			case *ssa.MapUpdate:
+				ms.add(modKey{kind: "M", t: unalias(x.Map.Type()).Underlying()})
+			case *ssa.Call:
+				if bi, ok := x.Call.Value.(*ssa.Builtin); ok && (bi.Name() == "append" || bi.Name() == "copy") {
+					if sl, ok := unalias(x.Call.Args[0].Type()).Underlying().(*types.Slice); ok {
+						ms.add(modKey{kind: "E", t: sl.Elem()})
+					}
+				}
+			}
 			switch x := in.(type) {
 			case *ssa.Call:
 				e.callWrites(&x.Call, ms, map[*ssa.Function]bool{})
@@ -331,6 +361,12 @@ func (e *Engine) loopWrites(li *loopInfo) *modset {
 
 func (f *FnVC) havocModKey(st *State, k modKey, seen map[string]bool) {
 	switch k.kind {
+	case "G":
+		if gt, ok := f.E.GhostFields[k.name]; ok {
+			if t, err := f.specType(&SEnv{f: f}, gt); err == nil {
+				f.havocComp(st, "G$"+k.name, arraySort(SRef, f.TE.Sort(t)))
+			}
+		}
 	case "F":
 		si := f.TE.StructInfo(k.t)
 		ft := unalias(k.t).Underlying().(*types.Struct).Field(k.field).Type()
